@@ -49,7 +49,11 @@ def gen_partition_case(seed, idx, wellformed=True, max_nodes=260, force=None):
     ops_done = []
     with RngCtl(rnd, qmode=qmode) as rng:
         cls = make_partition_class(kind, K, rng)
-        part = cls(domain=[list(iv) for iv in box])
+        dom = [list(iv) for iv in box]
+        if all(float(x).is_integer() and abs(x) < 2 ** 50 for iv in box for x in iv) and rnd.random() < 0.4:
+            dom = [[int(iv[0]), int(iv[1])] for iv in box]      # integer bounds, as in the library's own tests
+            case.tags["domain=integer-bounds"] += 1
+        part = cls(domain=dom)
         case.op(f"P.init {kind_str(kind, K)} {box_str(box)}", "ok")
         case.op("P.dump", dump_part(part))
         nops = rnd.randint(2, 9) if chain is None else depth_goal
